@@ -16,6 +16,17 @@ accuracy of `result - max` against `log_B(1 + B^-d)` (float screening, exact big
 at the boundary), monotonicity along each sweep, and the log/exp round trip in exact rational
 arithmetic — is evaluated in Python on what the C code returned.
 
+(3) HISTORY family: in ONE harness process (`h_c19 hist`) logmath objects are created, retained, freed and
+re-created in generated orders (a tour through every ordered pair "X freed, then Y created" of the
+kernel-proved configurations and a few others, a fixed two-live-objects scenario, random multi-slot
+histories with retain/free interleavings and decoder-owned objects: decoder_create -> decoder_logmath ->
+decoder_free -> new decoder with another logbase).  After every creation (and after every free, for the
+objects that stay alive) the object's whole table is dumped and must EQUAL, entry for entry, the table in
+lean/SSVerif/Generated/LogTables.lean that the kernel proof is about (for the other configurations: the
+table dumped from a fresh process and judged by the exact oracle), and difference sweeps on the object are
+judged by the oracle and diffed against the model.  This is what makes the theorems apply to every object
+of a history, not only to the first object of a fresh process.
+
 Known finding D20: `logmath_log` truncates toward zero, so `exp(log p) > p` for `p < 1` whenever
 `log_b p` is not an integer (witness p = 0.5, base 1.0001, shift 0: -6931 > -6931.8).
 """
@@ -41,6 +52,7 @@ class Cfg:
         self.exact_calls = 0
         self._t0max = None
         self.line = None          # the harness op that creates this configuration, when it is not `cfg`
+        self.exact_limit = 3 * 10 ** 7   # bit budget of one exact big-integer decision
 
     @property
     def t0max(self):
@@ -68,7 +80,7 @@ class Cfg:
     def exact_acc(self, d, k):
         """the statement AccAt P Q D d k of the Lean development, in exact integer arithmetic"""
         P, Q, D = self.P, self.Q, DTOL
-        if (2 * d + 2 * k + 2) * P.bit_length() > 3 * 10 ** 7:
+        if (2 * d + 2 * k + 2) * P.bit_length() > self.exact_limit:
             return True      # too large for exact arithmetic: inside the 1e-6 screening band, accepted
         X, Y = P ** d, Q ** d
         lower = True if k == 0 else P ** (2 * k - 1) * X * X * (D - 1) ** 2 <= (X + Y) ** 2 * Q ** (2 * k - 1) * D * D
@@ -475,9 +487,23 @@ def dyn_specs(rng, tier):
     return specs
 
 
+def topbit_specs(tier):
+    """(base, shift, label) of bases whose 2-byte table needs the TOP BIT of its elements:
+    round(log_b 2 / 2^shift) in [32768, 65536) — logmath_init picks the element width from that value
+    (`maxyx < 256` -> 1, `< 65536` -> 2, else 4 bytes), so these are accepted with width 2 and the first
+    ~3850 entries are >= 32768 (a signed 16-bit read would turn them negative)"""
+    specs = [("1.00002", 0, "top-bit 16-bit table, base 1.00002 shift 0 (t[0] = 34658)"),
+             ("1.00001", 1, "top-bit 16-bit table, base 1.00001 shift 1 (t[0] = 34658)")]
+    if tier != "quick":
+        specs += [("1.000011", 0, "top-bit 16-bit table, base 1.000011 shift 0 (t[0] = 63014)"),
+                  ("1.0000025", 3, "top-bit 16-bit table, base 1.0000025 shift 3 (t[0] = 34657)")]
+    return [(float(b).hex(), sh, label) for b, sh, label in specs]
+
+
 def load_dyn(binp, base_hex, shift, label=None):
     hdr, vals = gen_logtables.dump_log_table(binp, base_hex, shift)
-    return Cfg("dyn", base_hex, Fraction(float.fromhex(base_hex)), shift, hdr, vals, label)
+    fr = Fraction(float.fromhex(base_hex)) if "x" in base_hex.lower() else Fraction(base_hex)
+    return Cfg("dyn", base_hex, fr, shift, hdr, vals, label)
 
 
 def branch_coverage(cfg, ops):
@@ -688,6 +714,539 @@ def report_exact(c, problems, label):
     return clean
 
 
+# --------------------------------------------------------------------------
+# HISTORY family: several logmath objects created / retained / freed / re-created in ONE process.
+# The result of an object must depend on its own (base, shift) only, never on which other objects
+# existed before or exist beside it: after every creation the object's table must be THE table the
+# kernel proof is about, and its adds must satisfy the oracle and equal the model.
+
+HIST_EXTRA = (("1.0003", 0), ("1.0003", 10), ("1.0001", 1), ("1.0003", 8), ("1.002714", 1))
+NSLOT = 8
+STRUCT_OPS = ("new", "new0", "retain", "free", "dec", "decre", "decretain", "decfree")
+
+
+def rle_text(vals):
+    return ",".join(f"{v}:{n}" for v, n in gen_logtables.rle(vals)) or "-"
+
+
+def unrle(text):
+    vals = []
+    if text != "-":
+        for t in text.split(","):
+            v, n = t.split(":")
+            vals += [int(v)] * int(n)
+    return vals
+
+
+def lean_tables():
+    """{config name: values} parsed back from lean/SSVerif/Generated/LogTables.lean — the very run lists
+    `cfgDec.checks = true` etc. are decided on in the kernel"""
+    import re
+    text = (gen_logtables.GEN / "LogTables.lean").read_text()
+    res = {}
+    for m in re.finditer(r"^def (\w+?)_runs_(\d+) : List \(Nat × Nat\) := \[(.*)\]$", text, re.M):
+        res.setdefault(m.group(1), {})[int(m.group(2))] = [(int(a), int(b)) for a, b in re.findall(r"\((\d+), (\d+)\)", m.group(3))]
+    out = {}
+    for name, chunks in res.items():
+        vals = []
+        for i in sorted(chunks):
+            for v, n in chunks[i]:
+                vals += [v] * n
+        out[name] = vals
+    return out
+
+
+class Pool:
+    """the configurations a history draws from, keyed by (base string, shift): the generated
+    (kernel-proved) ones with the table of Generated/LogTables.lean as reference, the others with the
+    table dumped from a fresh process (judged by the exact oracle) as reference"""
+
+    def __init__(self, c, cfgs, binp):
+        self.binp, self.cfgs, self.ref, self.proved = binp, {}, {}, {}
+        lt = lean_tables()
+        stale = []
+        for g in cfgs.values():
+            key = (g.base, g.shift)
+            if key in self.cfgs:
+                continue
+            self.cfgs[key], self.proved[key] = g, True
+            self.ref[key] = rle_text(lt.get(g.name, []))
+            if lt.get(g.name) != g.vals:
+                stale.append(g.name)
+        if c is not None:
+            c.oblige("tie: the tables in Generated/LogTables.lean (what the kernel proof is about) equal the tables dumped "
+                     "from a fresh process of this build", not stale, stale)
+
+    def get(self, base, shift):
+        key = (base, shift)
+        if key not in self.cfgs:
+            hdr, vals = gen_logtables.dump_log_table(self.binp, base, shift)
+            self.cfgs[key] = Cfg("dyn", base, Fraction(base), shift, hdr, vals, f"history object, base {base} shift {shift}")
+            self.proved[key] = False
+            self.ref[key] = rle_text(vals)
+        return self.cfgs[key]
+
+    def keys(self):
+        return list(self.cfgs)
+
+
+def hist_walk(ops):
+    """ledger of a history: yields (index, op words, key of the object the op concerns or None,
+    expected return value or None); an op the ledger rejects (busy / empty slot) yields key 'invalid'"""
+    slots, dec, cur = {}, None, None       # slot -> object (a list [key, refcount]); cur = object
+    for i, op in enumerate(ops):
+        w = op.split()
+        k = w[0]
+        try:
+            if k in ("new", "new0"):
+                a = int(w[1])
+                if a in slots or not 0 <= a < NSLOT:
+                    raise KeyError
+                slots[a] = cur = [(w[2], int(w[3]), k == "new"), 1]
+                yield i, w, cur[0], None
+            elif k == "retain":
+                a, b = int(w[1]), int(w[2])
+                if b in slots or not 0 <= b < NSLOT:
+                    raise KeyError
+                slots[b] = slots[a]
+                slots[b][1] += 1
+                yield i, w, slots[b][0], 1
+            elif k == "free":
+                o = slots.pop(int(w[1]))
+                o[1] -= 1
+                cur = None
+                yield i, w, o[0], o[1]
+            elif k == "use":
+                cur = slots[int(w[1])]
+                yield i, w, cur[0], None
+            elif k == "dec":
+                if dec is not None:
+                    raise KeyError
+                dec = cur = [(w[1], 0, True), 1]
+                yield i, w, cur[0], None
+            elif k == "decre":
+                # decoder_init_config keeps the logmath when the base is the same double, else frees it and makes a new one
+                if float(dec[0][0]) != float(w[1]):
+                    dec[1] -= 1
+                    dec = [(w[1], 0, True), 1]
+                cur = dec
+                yield i, w, dec[0], None
+            elif k == "decuse":
+                cur = dec
+                yield i, w, dec[0], None
+            elif k == "decretain":
+                a = int(w[1])
+                if a in slots or dec is None or not 0 <= a < NSLOT:
+                    raise KeyError
+                slots[a] = dec
+                dec[1] += 1
+                yield i, w, dec[0], 1
+            elif k == "decfree":
+                dec[1] -= 1
+                cur, dec = None, None
+                yield i, w, None, 0          # decoder_free returns the DECODER's reference count
+            else:
+                yield i, w, (cur[0] if cur else None), None
+        except (KeyError, TypeError, IndexError, ValueError):
+            yield i, w, "invalid", None
+
+
+def hist_valid(ops):
+    return [op for (i, w, key, _), op in zip(hist_walk(ops), ops) if key != "invalid"]
+
+
+def obj_check_ops(cfg, rng, deep=True):
+    """ops judging the current object: its whole table, then difference sweeps in both orders"""
+    ops = ["table", "tab"]
+    if cfg.size == 0:
+        return ops[:1]
+    n1 = min(cfg.size + 3, 2000 if deep else 300)
+    x0 = 0 if rng.chance(0.5) else -1 - rng.below(100000)
+    ops += [f"sweep {x0} {x0} 0 -1 {n1}", f"sweep {x0} {x0} -1 0 {n1}"]
+    if cfg.size + 3 > n1:
+        d0 = cfg.size - 30
+        ops += [f"sweep {x0} {x0 - d0} 0 -1 33", f"sweep {x0 - d0} {x0} -1 0 33"]
+        for _ in range(40 if deep else 5):
+            d = n1 + rng.below(cfg.size - n1)
+            ops.append(f"add {x0} {x0 - d}" if rng.chance(0.5) else f"add {x0 - d} {x0}")
+    ops += [f"add {cfg.zero} {x0 - 7}", f"add {x0 - 7} {cfg.zero - 1}"]
+    return ops
+
+
+def gen_tour(pool, rng, keys):
+    """one object alive at a time; every ordered pair (X freed, then Y created) of `keys` occurs"""
+    todo = {(a, b) for a in keys for b in keys}
+    cur = rng.choice(keys)
+    ops = [f"new 0 {cur[0]} {cur[1]}"] + obj_check_ops(pool.get(*cur), rng)
+    while todo and len(ops) < 40 * len(keys) ** 2:
+        nxt = [b for b in keys if (cur, b) in todo] or [b for b in keys if any((b, x) in todo for x in keys)] or keys
+        b = rng.choice(nxt)
+        todo.discard((cur, b))
+        ops += ["free 0", f"new 0 {b[0]} {b[1]}"] + obj_check_ops(pool.get(*b), rng)
+        cur = b
+    ops.append("free 0")
+    return ops
+
+
+def gen_two_live(pool, rng, keys):
+    """two (and three) objects alive at once, freed in the other order, buffers of equal byte size"""
+    a, b, c3 = (rng.choice(keys) for _ in range(3))
+    big = max(keys, key=lambda k: pool.get(*k).size * pool.get(*k).width)
+    ops = []
+
+    def chk(slot, key, deep=False):
+        return [f"use {slot}"] + obj_check_ops(pool.get(*key), rng, deep)
+    ops += [f"new 0 {big[0]} {big[1]}"] + obj_check_ops(pool.get(*big), rng)
+    ops += [f"new 1 {a[0]} {a[1]}"] + obj_check_ops(pool.get(*a), rng) + chk(0, big)
+    ops += ["retain 0 5", "free 0"] + chk(5, big) + chk(1, a)
+    ops += ["free 5", f"new 2 {b[0]} {b[1]}"] + obj_check_ops(pool.get(*b), rng) + chk(1, a)
+    ops += ["free 1", f"new 3 {c3[0]} {c3[1]}"] + obj_check_ops(pool.get(*c3), rng) + chk(2, b)
+    ops += ["free 2", "free 3", f"new 0 {a[0]} {a[1]}"] + obj_check_ops(pool.get(*a), rng) + ["free 0"]
+    return ops
+
+
+def gen_decoder_chain(pool, rng, keys):
+    """decoder-owned objects: decoder_create -> decoder_logmath -> decoder_free -> new decoder with another
+    logbase, through every ordered pair of the shift-0 bases; now and then the decoder's logmath is retained
+    beyond the decoder's life, or swapped inside a living decoder by decoder_reinit with another logbase"""
+    bases = sorted({k[0] for k in keys if k[1] == 0})
+    todo = {(a, b) for a in bases for b in bases}
+    cur = rng.choice(bases)
+    ops = [f"dec {cur}"] + obj_check_ops(pool.get(cur, 0), rng)
+    held = None
+    while todo and len(ops) < 2000:
+        nxt = [b for b in bases if (cur, b) in todo] or [b for b in bases if any((b, x) in todo for x in bases)] or bases
+        b = rng.choice(nxt)
+        todo.discard((cur, b))
+        how = rng.below(4)
+        if how == 0 and held is None:
+            # the old logmath outlives its decoder
+            ops += ["decretain 6", "decfree", f"dec {b}"] + obj_check_ops(pool.get(b, 0), rng)
+            ops += ["use 6"] + obj_check_ops(pool.get(cur, 0), rng, deep=False)
+            held = cur
+        elif how == 1:
+            ops += [f"decre {b}"] + obj_check_ops(pool.get(b, 0), rng)
+        else:
+            ops += ["decfree", f"dec {b}"] + obj_check_ops(pool.get(b, 0), rng)
+        if held is not None and rng.chance(0.5):
+            ops += ["free 6", "decuse"] + obj_check_ops(pool.get(b, 0), rng, deep=False)
+            held = None
+        cur = b
+    ops.append("decfree")
+    if held is not None:
+        ops += ["use 6"] + obj_check_ops(pool.get(held, 0), rng, deep=False) + ["free 6"]
+    return ops
+
+
+def gen_random_history(pool, rng, keys, nsteps):
+    """random multi-slot history: new / new0 / retain / free / decoder-owned objects; after every
+    creation the new object is judged in depth, after every creation and every release every object
+    that is still alive is judged again (its table must not have moved)"""
+    ops = []
+    slots, dec = {}, None          # slot -> object id ; objects: id -> [key, refcount]
+    objs, nid = {}, 0
+    decbases = sorted({k[0] for k in keys if k[1] == 0})
+
+    def live_checks(skip=None):
+        res, seen = [], set()
+        for s_, oid in sorted(slots.items()):
+            if oid in seen or oid == skip or not objs[oid][0][2]:
+                continue
+            seen.add(oid)
+            res += [f"use {s_}"] + obj_check_ops(pool.get(*objs[oid][0][:2]), rng, deep=False)
+        if dec is not None and dec not in seen and dec != skip:
+            res += ["decuse"] + obj_check_ops(pool.get(*objs[dec][0][:2]), rng, deep=False)
+        return res
+    for _ in range(nsteps):
+        free_slots = [i for i in range(NSLOT) if i not in slots]
+        nlive = len({o for o in slots.values()})
+        kind = rng.weighted([("new", 30 if free_slots and nlive < 4 else 0), ("free", 30 if slots else 0),
+                             ("retain", 10 if slots and free_slots else 0), ("new0", 3 if free_slots else 0),
+                             ("dec", 10 if dec is None else 0), ("decretain", 5 if dec is not None and free_slots else 0),
+                             ("decre", 6 if dec is not None else 0), ("decfree", 8 if dec is not None else 0)])
+        if kind in ("new", "new0"):
+            a, key = rng.choice(free_slots), rng.choice(keys)
+            objs[nid] = [(key[0], key[1], kind == "new"), 1]
+            slots[a] = nid
+            ops.append(f"{kind} {a} {key[0]} {key[1]}")
+            ops += obj_check_ops(pool.get(*key), rng) if kind == "new" else ["table"]
+            ops += live_checks(skip=nid)
+            nid += 1
+        elif kind == "retain":
+            a, b = rng.choice(sorted(slots)), rng.choice(free_slots)
+            slots[b] = slots[a]
+            objs[slots[a]][1] += 1
+            ops.append(f"retain {a} {b}")
+        elif kind == "free":
+            a = rng.choice(sorted(slots))
+            oid = slots.pop(a)
+            objs[oid][1] -= 1
+            ops.append(f"free {a}")
+            ops += live_checks()
+        elif kind == "dec":
+            b = rng.choice(decbases)
+            objs[nid] = [(b, 0, True), 1]
+            dec = nid
+            ops.append(f"dec {b}")
+            ops += obj_check_ops(pool.get(b, 0), rng) + live_checks(skip=nid)
+            nid += 1
+        elif kind == "decre":
+            b = rng.choice(decbases)
+            ops.append(f"decre {b}")
+            if float(b) != float(objs[dec][0][0]):
+                objs[dec][1] -= 1
+                objs[nid] = [(b, 0, True), 1]
+                dec = nid
+                nid += 1
+            ops += obj_check_ops(pool.get(b, 0), rng) + live_checks(skip=dec)
+        elif kind == "decretain":
+            b = rng.choice(free_slots)
+            slots[b] = dec
+            objs[dec][1] += 1
+            ops.append(f"decretain {b}")
+        elif kind == "decfree":
+            objs[dec][1] -= 1
+            dec = None
+            ops.append("decfree")
+            ops += live_checks()
+    for a in sorted(slots):
+        ops.append(f"free {a}")
+    if dec is not None:
+        ops.append("decfree")
+    return ops
+
+
+def hist_run(binp, ops):
+    rc, out, err = vlib.run_bin(binp, ["hist"], stdin_text="\n".join(ops) + "\n", timeout=1800)
+    return rc, out.split("\n")[:-1], err
+
+
+def failing_add_after(binp, pool, ops, upto, cfg, ds):
+    """search for a failing input after a table mismatch: replay the history up to op `upto` and ask the
+    real code for add(0, -d) at the entries that differ; returns (d, result, reason) of the first the oracle rejects"""
+    adds = [f"add 0 {-d}" for d in ds]
+    rc, lines, _ = hist_run(binp, ops[:upto + 1] + adds)
+    for d, l in zip(ds, lines[upto + 1:]):
+        f = l.split()
+        if len(f) == 2 and f[0] == "r":
+            why = judge_add(cfg, 0, -d, int(f[1]))
+            if why:
+                return d, int(f[1]), why
+    return None
+
+
+def shrink_history(binp, pool, ops, upto, add_op, cfg):
+    """smallest create/retain/free history before the creation of the failing object on which the oracle
+    still rejects `add_op` (asked right after the creation, the new object being current)"""
+    create = max(i for i in range(upto + 1) if ops[i].split()[0] in ("new", "dec", "decre"))
+    if ops[upto].split()[0] in ("use", "decuse") or any(o.split()[0] in ("use", "decuse") for o in ops[create:upto + 1]):
+        return None        # the failing object is not the newest one: keep the whole history
+    pre = [o for o in ops[:create] if o.split()[0] in STRUCT_OPS]
+    x, y = int(add_op.split()[1]), int(add_op.split()[2])
+
+    def fails(sub):
+        h = hist_valid(sub + [ops[create]])
+        if not h or h[-1] != ops[create]:
+            return False
+        rc, lines, _ = hist_run(binp, h + [add_op])
+        f = lines[-1].split() if len(lines) == len(h) + 1 else []
+        return len(f) == 2 and f[0] == "r" and judge_add(cfg, x, y, int(f[1])) is not None
+    if not fails(pre):
+        return None
+    small = vlib.ddmin(pre, fails, max_tests=80) if len(pre) > 1 else pre
+    return hist_valid(small + [ops[create]]) + [add_op]
+
+
+def eval_history(c, binp, pool, ops, label, stats=None, shrink=True):
+    """run one history on the real code and its adds on the model; judge; returns problems"""
+    rc, hout, err = hist_run(binp, ops)
+    problems = []
+    if rc != 0 or len(hout) != len(ops):
+        i = min(len(hout), len(ops) - 1)
+        struct = [o for o in ops[:i] if o.split()[0] in STRUCT_OPS or o.split()[0] in ("use", "decuse")]
+        problems.append({"kind": "harness-abort", "op": ops[i], "hist_ops": struct + [ops[i]], "exit_code": rc,
+                         "stderr_tail": err[-2500:], "impl_violates": True,
+                         "reason": "the real code did not return (sanitizer report / abort) on this op of the history"})
+        ops = ops[:len(hout)]
+    # model side: the configuration lines, `tab`, adds and sweeps
+    dops, dmap, curkey = [], {}, None
+    walk = list(hist_walk(ops))
+    for i, w, key, _ in walk:
+        if w[0] in ("new", "use", "dec", "decre", "decuse") and key not in (None, "invalid") and key[2]:
+            cfg = pool.get(key[0], key[1])
+            dmap[i] = len(dops)
+            dops.append(cfg.driver_cfg_line() if cfg.dyn else f"cfg {cfg.name} {cfg.base} {cfg.shift}")
+        elif w[0] in ("tab", "add", "sweep") and key not in (None, "invalid") and key[2]:
+            dmap[i] = len(dops)
+            dops.append(ops[i])
+    mlines = []
+    if dops:
+        rc2, mout, merr = vlib.run_driver("c19", "\n".join(dops) + "\n", timeout=1800)
+        mlines = mout.rstrip("\n").split("\n") if mout.strip() else []
+        if rc2 != 0 or len(mlines) != len(dops):
+            problems.append({"kind": "driver-error", "reason": f"ssdriver c19 exit {rc2}, {len(mlines)} lines for {len(dops)} ops",
+                             "stderr_tail": merr[-800:], "impl_violates": False, "hist_ops": ops[:1]})
+            return problems
+    ncreate = 0
+    for i, w, key, expect in walk:
+        if any(q["impl_violates"] for q in problems):
+            break              # one concrete failing input per history is enough (the search and the shrinking re-run the history)
+        hl = hout[i]
+        k = w[0]
+        struct = lambda upto: [o for o in ops[:upto + 1] if o.split()[0] in STRUCT_OPS or o.split()[0] in ("use", "decuse")]
+        if key == "invalid":
+            problems.append({"kind": "generator", "op": ops[i], "impl": hl, "reason": "ill-formed history op", "impl_violates": False,
+                             "hist_ops": struct(i)})
+            continue
+        if k in ("new", "new0", "use", "dec", "decre", "decuse"):
+            cfg = pool.get(key[0], key[1])
+            ncreate += k in ("new", "new0", "dec", "decre")
+            want = (f"size {cfg.size} width {cfg.width} shift {cfg.shift} zero {cfg.zero}" if key[2] else
+                    f"size 0 width 0 shift {cfg.shift} zero {cfg.zero}")
+            if hl.split(" ", 2)[2:] != [want]:
+                problems.append({"kind": "shape", "op": ops[i], "impl": hl, "expected": want, "impl_violates": False, "hist_ops": struct(i),
+                                 "reason": "shape of the object differs from the shape of the same configuration in a fresh process"})
+            if i in dmap and mlines[dmap[i]].split(" ", 2)[2:] != hl.split(" ", 2)[2:]:
+                problems.append({"kind": "shape", "op": ops[i], "impl": hl, "model": mlines[dmap[i]], "impl_violates": False,
+                                 "hist_ops": struct(i), "reason": "implementation and model differ on the shape"})
+        elif k in ("retain", "decretain", "free", "decfree"):
+            want = f"ret {expect}" if k.endswith("retain") else f"f {expect}"
+            if hl != want:
+                problems.append({"kind": "refcount", "op": ops[i], "impl": hl, "expected": want, "impl_violates": False, "hist_ops": struct(i),
+                                 "reason": "reference count returned differs from the ledger of the history"})
+        elif k == "table":
+            if key is None:
+                continue
+            cfg = pool.get(key[0], key[1])
+            ref = pool.ref[(key[0], key[1])] if key[2] else "-"
+            f = hl.split()
+            if stats is not None:
+                stats["hist_tables_compared"] = stats.get("hist_tables_compared", 0) + 1
+                stats["hist_table_entries_compared"] = stats.get("hist_table_entries_compared", 0) + (cfg.size if key[2] else 0)
+            if len(f) == 4 and f[3] == ref and f[1] == str(cfg.width if key[2] else 0):
+                continue
+            got, want = unrle(f[3]) if len(f) == 4 else [], unrle(ref)
+            diff = [d for d in range(max(len(got), len(want))) if (got[d] if d < len(got) else 0) != (want[d] if d < len(want) else 0)]
+            p = {"kind": "history-table", "op": "table", "hist_ops": struct(i) + ["table"], "config": cfg.label, "base": cfg.base,
+                 "shift": cfg.shift, "proved_configuration": pool.proved[(key[0], key[1])],
+                 "entries_differing": len(diff), "first_differences": [
+                     {"d": d, "object_in_history": got[d] if d < len(got) else None, "reference": want[d] if d < len(want) else None}
+                     for d in diff[:4]], "impl_width_size": f[1:3], "impl_violates": False,
+                 "reason": "the table of this object, dumped inside the history, differs from the table the proof is about "
+                           "(the table of the same base and shift built in a fresh process): the object depends on the history"}
+            # search for a failing input: an add at a differing entry that the oracle rejects
+            cand = [d for d in diff if not cfg.acc_ok(d, got[d] if d < len(got) else 0)][:6] or diff[:6]
+            hit = failing_add_after(binp, pool, ops, i, cfg, cand) if cand else None
+            if hit:
+                d, r, why = hit
+                add_op = f"add 0 {-d}"
+                small = shrink_history(binp, pool, ops, i, add_op, cfg) if shrink else None
+                p.update({"op": add_op, "impl": r, "impl_violates": True, "hist_ops": small or (struct(i) + [add_op]),
+                          "history_before_shrinking": len(struct(i)),
+                          "reason": f"after this history, logmath_add(0, {-d}) on the newest object (base {cfg.base}, shift {cfg.shift}) "
+                                    f"returns {r}: {why}; the same object built in a fresh process has t[{d}] = "
+                                    f"{want[d] if d < len(want) else 0}, this one t[{d}] = {got[d] if d < len(got) else 0}"})
+            problems.append(p)
+        elif k == "tab":
+            if i in dmap and mlines[dmap[i]] != hl:
+                problems.append({"kind": "history-tab", "op": "tab", "impl": hl, "model": mlines[dmap[i]], "impl_violates": False,
+                                 "hist_ops": struct(i) + ["tab"], "reason": "table hash of implementation and model differ"})
+        elif k in ("add", "sweep"):
+            if key is None or not key[2]:
+                continue
+            cfg = pool.get(key[0], key[1])
+            x, y, dx, dy, n = sweep_args(ops[i])
+            hv = [int(t) for t in hl.split()[1:]]
+            mv = [int(t) for t in mlines[dmap[i]].split()[1:]] if i in dmap else []
+            if stats is not None:
+                stats["adds_evaluated"] += n
+                stats["hist_adds"] = stats.get("hist_adds", 0) + n
+            for j, r in enumerate(hv):
+                xj, yj = x + j * dx, y + j * dy
+                why = judge_add(cfg, xj, yj, r)
+                mr = mv[j] if j < len(mv) else None
+                if why is not None or mr != r:
+                    add_op = f"add {xj} {yj}"
+                    small = shrink_history(binp, pool, ops, i, add_op, cfg) if (why is not None and shrink) else None
+                    problems.append({"kind": "history-add", "op": add_op, "from": ops[i], "impl": r, "model": mr,
+                                     "config": cfg.label, "base": cfg.base, "shift": cfg.shift,
+                                     "hist_ops": small or (struct(i) + [add_op]),
+                                     "reason": why or "implementation and model differ (the implementation's value satisfies the property)",
+                                     "impl_violates": why is not None})
+                    break
+    if stats is not None:
+        stats["hist_creations"] = stats.get("hist_creations", 0) + ncreate
+        stats["hist_ops"] = stats.get("hist_ops", 0) + len(ops)
+        for o in ops:
+            kk = o.split()[0]
+            if kk in STRUCT_OPS:
+                stats.setdefault("hist_op_mix", {})[kk] = stats.setdefault("hist_op_mix", {}).get(kk, 0) + 1
+    return problems
+
+
+def report_history(c, problems, label):
+    """one violation per (kind, implementation violates); returns True when clean"""
+    clean, seen = True, set()
+    for p in sorted(problems, key=lambda q: not q["impl_violates"]):
+        tag = (p["kind"] if not p["impl_violates"] else "impl", p["impl_violates"])
+        if tag in seen or (not p["impl_violates"] and ("impl", True) in seen):
+            continue
+        seen.add(tag)
+        replay = dict(p)
+        replay.update({"kind": "history", "problem": p["kind"], "ops": p.get("hist_ops", []), "where": label,
+                       "implementation_violates_property": p["impl_violates"],
+                       "how_to_rerun": "python3 tools/check.py C19 --replay <this file>   (ops are fed to `h_c19 hist`)"})
+        replay.pop("hist_ops", None)
+        c.violation(replay, p["impl_violates"], tag="history")
+        clean = False
+        if not p["impl_violates"]:
+            c.oblige(f"correspondence: every object of a history = the fresh-process object of its configuration ({label}, {p['kind']})", False, p)
+    return clean
+
+
+def check_histories(c, cfgs, binp, stats):
+    pool = Pool(c, cfgs, binp)
+    for b, sh in HIST_EXTRA:
+        pool.get(b, sh)
+    corp_ok, ncorp = True, 0
+    for f in sorted((vlib.ROOT / "corpus" / "C19").glob("*.hist")):
+        ops = [l.strip() for l in f.read_text().split("\n") if l.strip() and not l.startswith("#")]
+        corp_ok &= report_history(c, eval_history(c, binp, pool, ops, f"corpus {f.name}", stats), f"corpus {f.name}")
+        ncorp += 1
+    stats["hist_corpus_cases"] = ncorp
+    keys = pool.keys()
+    bad = []
+    for k in keys:
+        if not pool.proved[k]:
+            g = pool.cfgs[k]
+            bb = judge_table(g, sample=c.tier == "quick")
+            if bb:
+                bad.append({"base": g.base, "shift": g.shift, "bad": bb[:3]})
+                check_table(c, g, sample=c.tier == "quick")
+    c.oblige(f"oracle: the fresh-process reference tables of the {sum(not v for v in pool.proved.values())} history configurations "
+             "without a generated table are non-increasing, 1-Lipschitz and accurate", not bad, bad[:3])
+    quick = c.tier == "quick"
+    fams = [("tour of all ordered (freed, created) pairs", gen_tour(pool, c.rng, keys)),
+            ("two and three live objects", gen_two_live(pool, c.rng, keys)),
+            ("decoder-owned objects, every ordered pair of logbases", gen_decoder_chain(pool, c.rng, keys))]
+    for i in range(2 if quick else 40):
+        fams.append((f"random multi-slot history {i}", gen_random_history(pool, c.rng, keys, 40 if quick else 150)))
+    ok = corp_ok
+    for label, ops in fams:
+        ok &= report_history(c, eval_history(c, binp, pool, ops, label, stats), label)
+        if not ok and quick:
+            break
+    if len(c.samples) < 12:
+        c.samples.append({"history": fams[-1][0], "ops": [o for o in fams[-1][1] if o.split()[0] in STRUCT_OPS][:30]})
+    c.oblige("correspondence (histories): in one process, through generated create / retain / free / re-create orders "
+             "(decoder-owned objects included), the table of every object equals the table the kernel proof is about "
+             "(fresh-process table for the other configurations), every add satisfies the oracle and equals the model", ok)
+    stats["hist_families"] = [l for l, _ in fams]
+    stats["hist_configurations"] = [{"base": k[0], "shift": k[1], "kernel_proved": pool.proved[k], "size": pool.cfgs[k].size,
+                                     "bytes": pool.cfgs[k].size * pool.cfgs[k].width} for k in keys]
+    return ok
+
+
 def private_harness(c):
     """a private copy of the harness binary: the shared build cache prunes old library builds
     (and the binaries next to them) while a long run is still using them"""
@@ -704,7 +1263,8 @@ def private_harness(c):
 def check(c):
     c.trusted += ["libm `log`/`pow`/`log10` and the floating-point part of logmath_init/logmath_log/logmath_exp (the table is "
                   "taken as data from the running code; its accuracy is then proved exactly)",
-                  "tools/gen_logtables.py + harness/h_c19.c `dump` (table dump, run-length encoding)",
+                  "tools/gen_logtables.py + harness/h_c19.c `dump` / `hist` `table` (table dump, run-length encoding; the history "
+                  "family parses Generated/LogTables.lean back with a regular expression)",
                   "harness/h_c19.c + tools/props/c19.py (generators, exact-rational oracle, diff)",
                   "the base is read as the rational its decimal string denotes (1.0001 = 10001/10000); the C code uses the nearest double"]
     c.assumptions += ["the Lean model of logmath_add assumes a table (use_table = 1); the table-less path (logmath_add_exact, floating "
@@ -753,9 +1313,12 @@ def check(c):
         branches[cfg.name] = br
     # bases without a generated table: width boundaries at several shifts, random bases
     dyn_info, dyn_bad = [], []
-    for l2, sh, label in dyn_specs(c.rng, c.tier):
-        base_hex = (2.0 ** (1.0 / l2)).hex()
+    dspecs = [((2.0 ** (1.0 / l2)).hex(), sh, label, None) for l2, sh, label in dyn_specs(c.rng, c.tier)]
+    dspecs += [(bh, sh, label, 6 * 10 ** 6) for bh, sh, label in topbit_specs(c.tier)]
+    for base_hex, sh, label, xlim in dspecs:
         cfg = load_dyn(binp, base_hex, sh, label)
+        if xlim:
+            cfg.exact_limit = xlim     # half-megabase tables: exact decisions only where they are affordable (d + k <= ~56 000)
         bad = check_table(c, cfg, sample=c.tier == "quick")
         if bad:
             dyn_bad.append({"config": label, "base": base_hex, "shift": sh, "bad": bad[:3]})
@@ -764,7 +1327,8 @@ def check(c):
         nops += len(ops)
         allok &= report(c, cfg, run_case(c, binp, cfg, ops, metas, stats), f"generated ops, {label}")
         dyn_info.append({"what": label, "base": float.fromhex(base_hex), "shift": sh, "size": cfg.size, "width": cfg.width,
-                         "t0": cfg.vals[0], "table_ok": not bad})
+                         "t0": cfg.vals[0], "table_ok": not bad, "entries_needing_top_bit_of_width": sum(
+                             1 for v in cfg.vals[:70000] if cfg.width in (1, 2) and v >= 256 ** cfg.width // 2)})
     # table-less objects for bases within 1e-5 of 1: conversions at and around log-zero
     near_info = []
     for base, sh in near_one_specs(c.rng, c.tier):
@@ -787,7 +1351,9 @@ def check(c):
         ops = gen_exact_ops(base, sh, c.rng, c.tier)
         nops += len(ops)
         allok &= report_exact(c, run_exact(c, binp, ops, stats), f"table-less addition, base {base} shift {sh}")
-    c.oblige(f"oracle: the {len(dyn_info)} tables dumped for width-boundary and random bases are non-increasing, "
+    # histories: several objects created / retained / freed / re-created in one process
+    hist_ok = check_histories(c, cfgs, binp, stats)
+    c.oblige(f"oracle: the {len(dyn_info)} tables dumped for width-boundary, top-bit and random bases are non-increasing, "
              f"1-Lipschitz and accurate at every entry judged and beyond", not dyn_bad, dyn_bad[:4])
     tables_ok &= not dyn_bad
     c.oblige("correspondence: real logmath_add/logmath_log/logmath_exp (ASan/UBSan) = model on every op; "
@@ -815,6 +1381,13 @@ def check(c):
                        "tolerance": "logmath_add_exact - (max + log_B(1+B^-d)) in (-1-1e-5, 2^-shift+1e-5] (it truncates, it does not round); "
                                     "equal to logmath_add on a table-less object; within 1 of the table-driven result; symmetric; "
                                     ">= max (up to float noise when the correction is < 1e-4); <= max + log_B 2 + 2^-shift"},
+        "histories": {"ok": hist_ok, "families": stats.get("hist_families"), "ops": stats.get("hist_ops", 0),
+                      "corpus_histories": stats.get("hist_corpus_cases", 0),
+                      "objects_created": stats.get("hist_creations", 0), "op_mix": stats.get("hist_op_mix", {}),
+                      "tables_compared_entry_for_entry": stats.get("hist_tables_compared", 0),
+                      "table_entries_compared": stats.get("hist_table_entries_compared", 0),
+                      "adds_judged_and_diffed": stats.get("hist_adds", 0),
+                      "configurations": stats.get("hist_configurations")},
         "model_branches_hit": branches,
         "model_branches_never_hit": never,
         "table_oracle_ok": tables_ok,
@@ -827,7 +1400,10 @@ def finish(c):
         "accuracy (in N, and restated with Real.logb) of the four tables dumped from logmath_init of this build, at every "
         "distance inside and beyond the table. Tie: tables re-dumped and re-proved when changed; real code vs model on "
         "exhaustive difference sweeps in both argument orders, range ends, log-zero, random pairs, log/exp sweep. Oracle: the "
-        "property evaluated in exact arithmetic on every value the C code returned. Known finding D20: logmath_log truncates "
+        "property evaluated in exact arithmetic on every value the C code returned. History family: in one process objects are "
+        "created / retained / freed / re-created in generated orders (decoder-owned ones included); the table of every object "
+        "must equal, entry for entry, the generated table the kernel proof is about, and its adds satisfy the oracle and equal "
+        "the model — so the theorems apply to every object of a history, not only to a fresh one. Known finding D20: logmath_log truncates "
         "toward zero, so exp(log p) > p for p < 1 (not repaired: a floor() changes pinned test outputs)."))
 
 
@@ -835,6 +1411,13 @@ def replay(c, path):
     c.lean_obligations()
     obj = json.loads(open(path).read())
     binp = private_harness(c)
+    if obj.get("kind") == "history":
+        pool = Pool(None, load_cfgs(), binp)
+        probs = eval_history(c, binp, pool, obj["ops"], "replay", shrink=False)
+        report_history(c, probs, "replay")
+        c.cov.update({"evaluations": len(obj["ops"]), "distinct_nontrivial": 1, "replayed_problems": [
+            {k: v for k, v in p.items() if k != "stderr_tail"} for p in probs[:5]]})
+        return
     if obj.get("harness_only"):
         probs = run_exact(c, binp, obj["ops"])
         report_exact(c, probs, "replay")
